@@ -55,7 +55,7 @@ impl ScopeDataField {
 impl TemplateField {
 //@ fn src/variable_versions/v9.rs - /impl TemplateField/ parse_as_field_value
 //@   result: r
-//@   ensures: nom_view(r) == fv_from(input@, datatype_of(self.field_type), self.field_length)
+//@   contract: stubs/v9_parse_as_field_value.rs
 //@ end
 }
 } // verus!
